@@ -290,6 +290,13 @@ def parseBulk (c : Codec) (input : Bytes) : Res :=
           else if start > end_ ∨ end_ > input.length then ⟨.crash .sliceOOB, []⟩
           else ⟨.ok (.bulk ((input.take end_).drop start)) ((end_ + 2) % W), [end_ - start]⟩
 
+/-- codec 1: bytes requested by `Vec::with_capacity(len as usize)` (40-byte elements);
+    codec 2 (`Vec::new()`): nothing -/
+def preReq (c : Codec) (n : Int) : Nat := if c.prealloc then asUsize n * elemSize else 0
+
+/-- `with_capacity(0)` does not allocate -/
+def preList (req : Nat) : List Nat := if req = 0 then [] else [req]
+
 /-- `*len\r\n` followed by `len` values; `p` decodes one element -/
 def parseArray (c : Codec) (mem : Nat) (p : Bytes → Res) (input : Bytes) : Res :=
   match c.findCrlf input with
@@ -302,17 +309,15 @@ def parseArray (c : Codec) (mem : Nat) (p : Bytes → Res) (input : Bytes) : Res
       | none => ⟨.error .badInt, []⟩
       | some n =>
         if n = -1 then ⟨.ok .nullArray (pos + 2), []⟩
+        -- codec 1: `Vec::with_capacity(len as usize)`: "capacity overflow" panic above isize::MAX
+        -- bytes, abort when the allocator refuses the request
+        else if preReq c n > isizeMax then ⟨.crash .capacityOverflow, []⟩
+        else if preReq c n ≥ mem ∧ preReq c n ≠ 0 then ⟨.crash .allocAbort, [preReq c n]⟩
         else
-          -- codec 1: `Vec::with_capacity(len as usize)` of 40-byte elements
-          let req := if c.prealloc then asUsize n * elemSize else 0
-          if req > isizeMax then ⟨.crash .capacityOverflow, []⟩
-          else if req ≥ mem ∧ req ≠ 0 then ⟨.crash .allocAbort, [req]⟩
-          else
-            let pre := if req = 0 then [] else [req]
-            -- `for _ in 0..len` with `len : i64`: no iteration when negative
-            match elems p c.emptyCheck n.toNat (input.drop (pos + 2)) with
-            | (.ok vs k, a) => ⟨.ok (.array vs) (pos + 2 + k), pre ++ a⟩
-            | (.stop o, a) => ⟨o, pre ++ a⟩
+          -- `for _ in 0..len` with `len : i64`: no iteration when negative
+          match elems p c.emptyCheck n.toNat (input.drop (pos + 2)) with
+          | (.ok vs k, a) => ⟨.ok (.array vs) (pos + 2 + k), preList (preReq c n) ++ a⟩
+          | (.stop o, a) => ⟨o, preList (preReq c n) ++ a⟩
 
 /-- `try_parse` / `RespParser::parse` with `depth` stack frames available -/
 def parseD (c : Codec) (mem : Nat) : Nat → Bytes → Res
